@@ -8,6 +8,7 @@ import (
 	"time"
 
 	"github.com/ipfs/go-cid"
+	cidlink "github.com/ipld/go-ipld-prime/linking/cid"
 	"github.com/libp2p/go-libp2p/core/peer"
 
 	datatransfer "github.com/filecoin-project/go-data-transfer/v2"
@@ -155,3 +156,5 @@ var dummyCid = func() cid.Cid {
 	}
 	return c
 }()
+
+var dummyLink = cidlink.Link{Cid: dummyCid}
